@@ -165,3 +165,26 @@ package ir
 //@   ensures [literal-i32] int(handle) < len(module.GlobalExpressions) && is(module.GlobalExpressions[int(handle)].Kind, Literal) && is(module.GlobalExpressions[int(handle)].Kind.(Literal).Value, LiteralI32) ==> result1 == nil && same(result0, float64(int32(module.GlobalExpressions[int(handle)].Kind.(Literal).Value.(LiteralI32))))
 //@   pure
 //@   nopanic
+//
+// Shared helpers of the remappers (compaction, inlining).
+//
+//@ func remapSampleLevel
+//@   mode bv
+//@   tags C13 C09
+//@   purefn rm
+//@   traverse remap level ExpressionHandle rm($)
+//@   nopanic
+//
+//@ func remapRayQueryFunction
+//@   mode bv
+//@   tags C13 C09
+//@   purefn rm
+//@   traverse remap fun ExpressionHandle rm($)
+//@   nopanic
+//
+//@ func remapGatherMode
+//@   mode bv
+//@   tags C13 C09
+//@   purefn rm
+//@   traverse remap mode ExpressionHandle rm($)
+//@   nopanic
